@@ -34,6 +34,8 @@ func init() {
 }
 
 func runC04(c *an.Ctx) {
+	r061as(c, "R04.11") // the projection applied to events works on a copy: the event object and the stored value are shared by every subscriber (shared with R06.1)
+	c.Min("R04.11", 3)
 	{
 		// the seed flags of single-item subscriptions (shares the walk of R03.7; only the seed clause is reported here)
 		sub := an.NewCtx(c.Prog, c.Property, c.Tier)
